@@ -76,10 +76,13 @@ CHECKS = {
          "Reflect-built types (nesting <= 6, up to 140 fields, escaped names, every tag option where documented) x boundary-dense values x 26 symmetric option sets: Unmarshal must accept Marshal(v), re-marshaling must reproduce the bytes (one more round under omitzero/omitempty), and where equality is meaningful the decoded value must equal v (floats by bits, full 64-bit integers, times by instant+offset or by what the layout carries; a pointer equals nil iff both encode as null). Dedicated sweeps per alternative representation (quoted numbers, numeric map keys, 7 byte formats, 18+ time layouts incl. unix*, 6 duration formats) additionally check that the first output denotes the value exactly, so formatter and parser errors that cancel cannot hide. float32: every bit pattern (thorough), every 509th (quick).",
          "trusted base: math/big, the toolchain's time.Format/Parse and encoding/base32,64,hex for the representation oracle; equality relation = kernel of the documented encoding (nil/empty containers, pointers whose target encodes as null)",
          "DESIGN.md §4 C04"),
+ "C09": ("exploration", "differential runtime monitor: v1 and the toolchain's classic encoding/json executed side by side in the same process on generated byte strings, reflect-built types/values and Decoder method scripts; every disagreement is attributed to a root cause computed from structural facts of the case (type features, tags, input class, failing side), matched against recorded known findings",
+         "Byte strings (generated, seeded, mutated) through Valid/Compact/Indent/HTMLEscape/Unmarshal; Go types over a 70-leaf pool (basic and named kinds, Number, RawMessage, time, JSON/text methods on value and pointer receivers, embedding shapes, fold conflicts) x tags (name, omitempty, omitzero, string, -) x maps keyed by string/integer/text types: Marshal/MarshalIndent/Encoder outputs must be byte-identical, Unmarshal/Decoder (UseNumber, DisallowUnknownFields, zero and pre-populated targets) must fail together and give deeply equal values, syntactically invalid input must leave the v1 target untouched; Decoder scripts over Token/Decode/More/InputOffset with chunked readers. Divergences of this tree that are not repaired are known findings F8, F21, F22, F24, F25, each matched by its own cause; anything else is a violation.",
+         "oracle: the encoding/json of the toolchain the repository is tested with (go1.26.0), same process, same Go values; domain restricted to types both packages can handle in the exercised direction; not compared: error text, targets after semantic errors, sentinel identity on damaged streams",
+         "DESIGN.md §4 C09"),
 }
 
 NOT_YET = {
- "C09": "monitor built (cmd/c09) but its divergence reports on the unchanged tree are still being triaged into fixes / known findings; not claimed until then",
  "C18": "monitor built (cmd/c18, race build) but too slow and not yet silent on the unchanged tree; not claimed until then",
 }
 
